@@ -8,7 +8,7 @@
  *   DICT <slot> file <path> | raw <size> <seed> | bytes <size> <seed> <magic:0/1> | gen <id> <contentSize> <seed> hufMode ofZero ofMax mlMax llMax ofLog mlLog llLog rep0 rep1 rep2
  *   LOADERS <slot>                         accept verdicts of both loaders + ID queries
  *   RT <slot> <mc> <attach> <md> <level> <kind> <size> <seed> <dictIDFlag>     one round trip
- *        mc: usingDict cdictCopy cdictRef load loadRef refCDict refPrefix dds      md: usingDict ddict load refDDict refPrefix multi
+ *        mc: usingDict cdictCopy cdictRef load loadRef refCDict refPrefix dds cdictRaw cdictFull loadRaw loadFull      md: usingDict ddict load refDDict refPrefix multi rawDDict loadRaw
  *   WRONG <slotC> <slotD> <level>          compress with dictionary C, decode with dictionary D
  *   HIST <ops...>                          a DictLife history: cload:s cref:s cprefix:s creset comp:0/1 dload:s dref:s dprefix:s dmulti dreset dec */
 #define ZSTD_STATIC_LINKING_ONLY
@@ -70,9 +70,12 @@ static size_t do_compress(const char* mc, int attach, int level, int s, size_t n
         if (!strcmp(mc, "load") || !strcmp(mc, "dds")) r = ZSTD_CCtx_loadDictionary(c, dict[s], dictSize[s]);
         else if (!strcmp(mc, "loadRef")) r = ZSTD_CCtx_loadDictionary_byReference(c, dict[s], dictSize[s]);
         else if (!strcmp(mc, "refPrefix")) r = ZSTD_CCtx_refPrefix(c, dict[s], dictSize[s]);
-        else { cd = !strcmp(mc, "cdictRef") ? ZSTD_createCDict_byReference(dict[s], dictSize[s], level) : ZSTD_createCDict(dict[s], dictSize[s], level);
+        else if (!strcmp(mc, "loadRaw") || !strcmp(mc, "loadFull")) r = ZSTD_CCtx_loadDictionary_advanced(c, dict[s], dictSize[s], ZSTD_dlm_byCopy, !strcmp(mc, "loadRaw") ? ZSTD_dct_rawContent : ZSTD_dct_fullDict);
+        else { if (!strcmp(mc, "cdictRaw") || !strcmp(mc, "cdictFull")) { ZSTD_customMem cm = { NULL, NULL, NULL };
+                 cd = ZSTD_createCDict_advanced(dict[s], dictSize[s], (n & 1) ? ZSTD_dlm_byRef : ZSTD_dlm_byCopy, !strcmp(mc, "cdictRaw") ? ZSTD_dct_rawContent : ZSTD_dct_fullDict, ZSTD_getCParams(level, n, dictSize[s]), cm); }
+            else cd = !strcmp(mc, "cdictRef") ? ZSTD_createCDict_byReference(dict[s], dictSize[s], level) : ZSTD_createCDict(dict[s], dictSize[s], level);
             if (!cd) { *err = "createCDict"; ZSTD_freeCCtx(c); return (size_t)-ZSTD_error_dictionary_corrupted; }
-            if (!strcmp(mc, "refCDict")) r = ZSTD_CCtx_refCDict(c, cd);
+            if (!strcmp(mc, "refCDict") || !strcmp(mc, "cdictRaw") || !strcmp(mc, "cdictFull")) r = ZSTD_CCtx_refCDict(c, cd);
             else { r = ZSTD_compress_usingCDict(c, comp, cap, src, n, cd); goto done; } }
         if (!ZSTD_isError(r)) r = ZSTD_compress2(c, comp, cap, src, n);
     }
@@ -85,7 +88,10 @@ static size_t do_decompress(const char* md, int s, size_t cs, size_t n, const ch
     if (!strcmp(md, "usingDict")) r = ZSTD_decompress_usingDict(d, out, n + 64, comp, cs, dict[s], dictSize[s]);
     else { if (!strcmp(md, "load")) r = ZSTD_DCtx_loadDictionary(d, dict[s], dictSize[s]);
         else if (!strcmp(md, "refPrefix")) r = ZSTD_DCtx_refPrefix(d, dict[s], dictSize[s]);
-        else { dd = ZSTD_createDDict(dict[s], dictSize[s]); if (!dd) { *err = "createDDict"; ZSTD_freeDCtx(d); return (size_t)-ZSTD_error_dictionary_corrupted; }
+        else if (!strcmp(md, "loadRaw")) r = ZSTD_DCtx_loadDictionary_advanced(d, dict[s], dictSize[s], ZSTD_dlm_byCopy, ZSTD_dct_rawContent);
+        else { if (!strcmp(md, "rawDDict")) { ZSTD_customMem cm = { NULL, NULL, NULL }; dd = ZSTD_createDDict_advanced(dict[s], dictSize[s], ZSTD_dlm_byRef, ZSTD_dct_rawContent, cm); }
+            else dd = ZSTD_createDDict(dict[s], dictSize[s]);
+            if (!dd) { *err = "createDDict"; ZSTD_freeDCtx(d); return (size_t)-ZSTD_error_dictionary_corrupted; }
             if (!strcmp(md, "ddict")) { r = ZSTD_decompress_usingDDict(d, out, n + 64, comp, cs, dd); goto done; }
             if (!strcmp(md, "multi")) { int o = (s + 1) % NSLOT; ZSTD_DCtx_setParameter(d, ZSTD_d_refMultipleDDicts, 1); if (dictSize[o] >= 8) { other = ZSTD_createDDict(dict[o], dictSize[o]); if (other) ZSTD_DCtx_refDDict(d, other); } }
             r = ZSTD_DCtx_refDDict(d, dd); }
